@@ -447,6 +447,14 @@ def _run_check(pid, p, tier, seed, jobs, findings, scratch, t0):
             violations.append(dict(case=case, message="process aborted while executing this case: %s\n%s" % (summ, out[-3000:]),
                                    key="%s|abort|%s" % (cls, _abort_kind(summ)), executor=exe, config=config, crashed=True))
 
+    # ---- one report per root-cause key (the smallest reproduction of each)
+    by_key = {}
+    for v in violations:
+        k = v["key"]
+        if k not in by_key or len(v["case"]) < len(by_key[k]["case"]):
+            by_key[k] = v
+    violations = [by_key[k] for k in sorted(by_key)]
+
     # ---- classify violations against the known-findings file
     fresh = []
     for v in violations:
